@@ -34,9 +34,10 @@ def configs(tier):
     S = lambda n, alphabet: dict(kind="stream", n=n, alphabet=alphabet)
     if tier == "quick":
         return [S(1, "full"), S(2, "full"), S(3, "tags"), S(4, "tags3"),
-                dict(kind="header", n=2), dict(kind="header", n=3)]
+                dict(kind="header", n=2), dict(kind="header", n=3), dict(kind="mux", n=3)]
     return [S(1, "full"), S(2, "full"), S(3, "full"), S(4, "tags"), S(4, "mid"), S(5, "tags3"),
-            dict(kind="header", n=2), dict(kind="header", n=3), dict(kind="header", n=4)]
+            dict(kind="header", n=2), dict(kind="header", n=3), dict(kind="header", n=4),
+            dict(kind="mux", n=2), dict(kind="mux", n=4)]
 
 
 def _header_fields():
@@ -225,5 +226,69 @@ class ArbiterSpec(Spec):
         return frozenset(nxt)
 
 
+class MuxSpec(Spec):
+    """StreamMultiplexer (the title's 'multiplexers'): it has no scheduler and documents the assumption that only one
+    input talks at a time; under exactly that assumption it must forward the talking input's words unmodified and
+    pass ready back to it alone."""
+    n_validate = 6
+
+    def __init__(self, cfg, tier):
+        super().__init__(cfg, tier)
+        self.n = cfg["n"]
+        self.time_budget = 150
+        words = [(p, f, l) for p in PAYLOADS for f in (0, 1) for l in (0, 1)]
+        acts = []
+        for r in (0, 1):
+            acts.append((r, None, (0, 0, 0), (0, 0, 0)))
+            acts.append((r, None, (0, 0, 0), (0xFF, 1, 1)))              # nobody valid, garbage on the idle inputs
+            for i in range(self.n):
+                for w in words:
+                    for other in ((0, 0, 0), (0xFF, 1, 1)):              # what the silent inputs show meanwhile
+                        acts.append((r, i, w, other))
+        self._acts = acts
+
+    def build(self):
+        from luna.gateware.stream.arbiter import StreamMultiplexer
+        from luna.gateware.stream import StreamInterface
+        d = StreamMultiplexer()
+        ins, obs = {}, {}
+        for i in range(self.n):
+            s = StreamInterface()
+            d.add_input(s)
+            ins[f"v{i}"] = s.valid; ins[f"p{i}"] = s.payload; ins[f"f{i}"] = s.first; ins[f"l{i}"] = s.last
+            obs[f"rdy{i}"] = s.ready
+        ins["out_ready"] = d.output.ready
+        obs.update(out_valid=d.output.valid, out_payload=d.output.payload, out_first=d.output.first, out_last=d.output.last)
+        return Design(d, ins, obs)
+
+    def actions(self, env): return self._acts
+
+    def assumptions(self):
+        return ["StreamMultiplexer: at most one input asserts valid in any cycle (the class documents this requirement)"]
+
+    def goals(self): return ["transfer", "stall", "idle"]
+
+    def apply(self, cur, env, a):
+        r, who, w, other = a
+        kw = dict(out_ready=r)
+        for i in range(self.n):
+            p, f, l = w if i == who else other
+            kw[f"v{i}"] = int(i == who); kw[f"p{i}"] = p; kw[f"f{i}"] = f; kw[f"l{i}"] = l
+        o = cur.step(**kw)
+        rdy = list(o[:self.n])
+        if who is None:
+            if o.out_valid: raise Violation("mux:valid-without-input", dict())
+            if any(rdy): raise Violation("mux:ready-to-silent-input", dict(ready=rdy))
+            self.cover["idle"] += 1
+            return env
+        if not o.out_valid: raise Violation("mux:word-not-forwarded", dict(input=who))
+        if (o.out_payload, o.out_first, o.out_last) != w:
+            raise Violation("mux:word-corrupted", dict(input=who, sent=w, got=(o.out_payload, o.out_first, o.out_last)))
+        if any(rdy[i] for i in range(self.n) if i != who): raise Violation("mux:ready-to-silent-input", dict(ready=rdy, talking=who))
+        if rdy[who] != r: raise Violation("mux:ready-not-passed", dict(ready=rdy, talking=who, out_ready=r))
+        self.cover["transfer" if r else "stall"] += 1
+        return env
+
+
 def make(cfg, tier):
-    return ArbiterSpec(cfg, tier)
+    return MuxSpec(cfg, tier) if cfg["kind"] == "mux" else ArbiterSpec(cfg, tier)
